@@ -204,6 +204,20 @@ func genDataCase(r *core.RNG, o dataGenOpts) dataCase {
 		d.Spec.Major = byte(r.Intn(4))
 	}
 	r.Fill(d.Spec.DevAddr[:])
+	if r.Chance(1, 4) {
+		// addresses as networks hand them out: the type prefix of one of the 8 NetID types, a small NwkID
+		// (NetID 000000 / 000001 are the experimental networks), or a multicast-looking / all-ones address
+		t := uint(r.Intn(8))
+		a := (uint32(0xff) << (8 - t) & 0xff) << 24 // t ones followed by a zero
+		nwkBits := []uint{6, 6, 9, 11, 12, 13, 15, 17}[t]
+		shift := 32 - (t + 1) - nwkBits
+		a |= uint32(r.Intn(3)) << shift
+		a |= r.U32() & (1<<shift - 1)
+		if r.Chance(1, 6) {
+			a = []uint32{0, 0xffffffff, 0x00000001, 0x01ffffff, 0x02000000, 0xfc000000, 0xfe000000}[r.Intn(7)]
+		}
+		d.Spec.DevAddr = [4]byte{byte(a >> 24), byte(a >> 16), byte(a >> 8), byte(a)}
+	}
 	d.Spec.ADR, d.Spec.ADRACKReq, d.Spec.ACK, d.Spec.Bit4 = r.Bool(), r.Bool(), r.Bool(), r.Bool()
 	if d.Spec.Bit4 {
 		switch r.Intn(3) {
@@ -216,6 +230,12 @@ func genDataCase(r *core.RNG, o dataGenOpts) dataCase {
 		}
 	}
 	d.Spec.FCnt = r.U32Edge()
+	if r.Chance(1, 10) {
+		d.Spec.FCnt = uint32(1+r.Intn(0xffff)) << 16 // just after a 16-bit rollover: low half zero, upper half not
+		if r.Bool() {
+			d.Spec.FCnt |= uint32(r.Intn(3))
+		}
+	}
 	up := d.Spec.Uplink()
 
 	pk := o.portKind
@@ -284,7 +304,7 @@ func genDataCase(r *core.RNG, o dataGenOpts) dataCase {
 	default:
 		d.Spec.FPort = 1 + r.Intn(255)
 		if r.Chance(1, 6) {
-			d.Spec.FPort = []int{1, 223, 224, 255, 200}[r.Intn(5)]
+			d.Spec.FPort = []int{1, 223, 224, 225, 255, 200, 201, 202, 203, 199}[r.Intn(10)] // application-layer packages, certification port, neighbours
 		}
 		d.portKind = ">0"
 		n := o.frmLen
@@ -293,6 +313,9 @@ func genDataCase(r *core.RNG, o dataGenOpts) dataCase {
 		}
 		if n > 0 {
 			b := r.Bytes(n)
+			if r.Chance(1, 6) {
+				b[0] = []byte{0x00, 0x02, 0x03, 0x06, 0x0d, 0x80, 0xe0, 0xff}[r.Intn(8)] // first bytes that mean something to another layer
+			}
 			d.Spec.FRMPayload = b
 			d.FRM = []lorawan.Payload{&lorawan.DataPayload{Bytes: append([]byte{}, b...)}}
 			if r.Chance(1, 6) {
